@@ -52,6 +52,10 @@ def const_term(c):
 CHECKED = {"AddWithOverflow": "Add", "SubWithOverflow": "Sub", "MulWithOverflow": "Mul"}
 
 
+import re as _re0
+_REF_ARITH = _re0.compile(r"^<&?(u8|u16|u32|u64|u128|usize|i8|i16|i32|i64|i128|isize) as std::ops::(Add|Sub|Mul)<&?\1>>::(add|sub|mul)$")
+
+
 class Prov:
     def __init__(self, fn):
         self.fn = fn
@@ -183,7 +187,56 @@ class Prov:
         red = self._beta(path, args, bi)
         if red is not None:
             return red
+        red = self._once_init(path, args)
+        if red is not None:
+            return red
+        m = _REF_ARITH.match(path)
+        if m and len(args) == 2:
+            # `&a + b` on primitive integers (`impl Add<usize> for &usize`): the same operation as `*a + b`
+            return ("bin", {"add": "Add", "sub": "Sub", "mul": "Mul"}[m.group(3)], strip(args[0], calls=False), strip(args[1], calls=False))
         return ("call", path, args, bi)
+
+    def _once_init(self, path, args):
+        """`CELL.get_or_init(|| value)` on a `static CELL: OnceLock<T>` that has no other initialiser or writer anywhere in the
+        crate: a reference to the value the (capture-free) closure builds -- the cell holds exactly that value for the life of
+        the process, whichever call gets there first"""
+        if path not in ("std::sync::OnceLock::<T>::get_or_init", "std::cell::OnceCell::<T>::get_or_init") or len(args) != 2:
+            return None
+        cell = strip(args[0], calls=False)
+        clo = strip(args[1], calls=False)
+        facts = getattr(self.fn, "facts", None)
+        if facts is None or cell[0] != "static" or not (clo[0] == "agg" and clo[1].startswith("closure:") and not clo[2]):
+            return None
+        cf = facts.fns.get(clo[1][len("closure:"):])
+        if cf is None:
+            return None
+        uses = getattr(facts, "_once_uses", None)
+        if uses is None:
+            uses = {}
+            facts._once_uses = uses          # (set first: evaluating operands below re-enters this function)
+            for f in facts.fns.values():
+                if not any(("OnceLock" in (t["callee"].get("resolved") or t["callee"].get("path") or "") or
+                            "OnceCell" in (t["callee"].get("resolved") or t["callee"].get("path") or "")) for _b, t in f.calls()):
+                    continue
+                fp = Prov(f)
+                for _bi, t in f.calls():
+                    q = t["callee"].get("resolved") or t["callee"].get("path") or ""
+                    if ("OnceLock" in q or "OnceCell" in q) and t["args"]:
+                        a0 = strip(fp.operand(t["args"][0]), calls=False)
+                        name = a0[1] if a0[0] == "static" else None
+                        how = q.rsplit("::", 1)[-1]
+                        if how == "get_or_init" and len(t["args"]) == 2:
+                            c_ = t["args"][1]
+                            cp_ = c_.get("move") or c_.get("copy")
+                            ct = strip(fp.local(cp_["l"]), calls=False) if cp_ is not None and not cp_["proj"] else ("?",)
+                            how = ("get_or_init", ct[1] if ct[0] == "agg" else "?")
+                        uses.setdefault(name, set()).add(how)
+        if None in uses or uses.get(cell[1]) != {("get_or_init", clo[1])}:
+            return None
+        key = ("once-init", cell[1])
+        if key not in self._memo:
+            self._memo[key] = ("ref", Prov(cf).local(0))
+        return self._memo[key]
 
     def _beta(self, path, args, bi):
         """`Fn::call(&f, (a, ..))` where f is a known function item (e.g. a helper's `impl Fn` parameter after the helper
